@@ -139,7 +139,7 @@ def main(argv=None):
     for e in available:
         share = budget / len(available)
         agg = orch.run_batch(prop, e, tier, seed, share, max_runs)
-        confirmed = orch.confirm_crashes(e, prop, seed, agg)
+        confirmed = orch.confirm_crashes(e, prop, seed, agg, tier=tier)
         agg["violations"] += confirmed
         agg["violations"] += orch.confirm_boot_crash(e, prop, agg)
         eng_mod = orch.engine_module(e)
